@@ -60,11 +60,11 @@ def run(v, tier, seed):
     mc_notes = []; samples = []
 
     # ------------------------------------------------------------------------------------------------ 1. model checking
-    def model_check(steps, menu, tag):
+    def model_check(steps, menu, tag, cover=True):
         name = cfg("gen_MC_%s.cfg" % tag, steps, [], False, menu, INVS, PROPS)
-        r = vlib.tlc("Isolation", name, FAM, coverage=True, workers=4, timeout=2400, heap="6g")
+        r = vlib.tlc("Isolation", name, FAM, coverage=cover, workers=4 if cover else 8, timeout=2400, heap="8g")
         vlib.require_ok(r, "Isolation model check %s" % tag)
-        vlib.require_coverage(r, ["Cmd", "Leave"], "Isolation %s" % tag)
+        if cover: vlib.require_coverage(r, ["Cmd", "Leave"], "Isolation %s" % tag)
         return r
 
     def reach(i, dev, invs, props):
@@ -88,23 +88,36 @@ def run(v, tier, seed):
         beh = [[nodes[n] for n in p[1:]] for p in paths]
         return {"tag": tag, "behaviours": beh, "init": init, "edges": nedges, "states": len(nodes), "tlc": (r.distinct, r.generated)}
 
-    def replay(rows, tag, every_nth=1, timeout=None):
+    def replay(rows, tag, every_nth=1, timeout=None, is_rerun=False):
         bf = W("beh_%s.ndjson" % tag); rep = W("rep_%s.ndjson" % tag)
         vlib.write_ndjson(bf, rows)
         to = timeout or (280 if quick else 2400)
         rc, out, err = vlib.run([srv, "iso", bf, rep, str(seed), str(every_nth)], timeout=to)
         res = vlib.read_ndjson(rep) if os.path.exists(rep) else []
         cur = None
-        if rc != 0:
+        if rc != 0 or any(r.get("hang") for r in res):
             try: cur = json.loads(open(rep + ".cur").read())
             except Exception: cur = None
-        return {"tag": tag, "rc": rc, "rows": res, "stderr": err[-5000:], "cur": cur, "n": len(rows)}
+        out = {"tag": tag, "rc": rc, "rows": res, "stderr": err[-5000:], "cur": cur, "n": len(rows)}
+        if not is_rerun and cur is not None: out["rerun"] = lambda: replay([cur], tag + "-rerun", every_nth, 600, True)
+        return out
+
+    def reproduced(res):
+        """a watchdog report is time-dependent: the case is run once more, alone, before it is believed"""
+        if "rerun" not in res: return True
+        rr = res["rerun"]()
+        again = rr["rc"] not in (0,) or any(r.get("hang") or r.get("violations") for r in rr["rows"])
+        if not again: vlib.log("NOTE property=C06 the watchdog fired once in %s but the case ran normally when repeated alone (machine overloaded?): not reported" % res["tag"])
+        return again
 
     def judge(res, what):
         """turns one harness run into verdicts; returns its summary row (or None)"""
         summ = [r for r in res["rows"] if r.get("summary")]
         for r in res["rows"]:
             if r.get("summary"): continue
+            if r.get("hang"):
+                if not reproduced(res): return None
+                r = dict(r, case=res["cur"])
             if r.get("violations"):
                 v.violation("%s: %s" % (what, "; ".join(r["violations"][:3])), dict(r, replay="put the behaviour on one line of a file; build/asan/bin/srv iso <file> <report> %d 1" % seed), tag=res["tag"])
             elif r.get("drift"):
@@ -112,6 +125,7 @@ def run(v, tier, seed):
                 if v.drift <= 3: vlib.log("DRIFT property=C06 %s %s: %s" % (what, brief(r.get("steps", [])), "; ".join(r["drift"][:2])[:400]))
         if res["rc"] != 0:
             if res["rc"] == -999: raise vlib.MachineryError("srv %s: timeout of the whole run (the in-harness watchdog did not fire): %s" % (res["tag"], res["stderr"][-800:]))
+            if res["rc"] == -9: raise vlib.MachineryError("srv %s was killed from outside (out of memory?)" % res["tag"])
             if summ and summ[-1].get("hang"): return summ[-1]
             kind = "sanitizer report" if res["rc"] in (66, 67) else "crash (exit %s)" % res["rc"]
             v.violation("%s: %s of the server while replaying a case: %s" % (what, kind, " | ".join(l for l in res["stderr"].splitlines() if "ERROR" in l or "SUMMARY" in l or "runtime error" in l)[:600]),
@@ -134,13 +148,14 @@ def run(v, tier, seed):
         return {"accepted": r.violated == "NotAccepted", "other": r.violated if r.violated not in (None, "NotAccepted") else None,
                 "explained": max(r.distinct - 1, 0), "lines": nlines, "states": r.distinct, "trace": tr}
 
-    def random_histories(mf, nh, ns, shard):
+    def random_histories(mf, nh, ns, shard, is_rerun=False):
         rep = W("rep_rand%d.ndjson" % shard); tr = W("trace_rand%d.ndjson" % shard)
         rc, out, err = vlib.run([srv, "isorand", mf, str(nh), str(ns), str(seed * 100 + shard), rep, tr, str(nh)], timeout=(280 if quick else 2400))
         res = {"tag": "rand%d" % shard, "rc": rc, "rows": vlib.read_ndjson(rep) if os.path.exists(rep) else [], "stderr": err[-5000:], "cur": None, "n": nh}
-        if rc != 0:
+        if rc != 0 or any(r.get("hang") for r in res["rows"]):
             try: res["cur"] = json.loads(open(rep + ".cur").read())
             except Exception: pass
+            if not is_rerun: res["rerun"] = lambda: random_histories(mf, nh, ns, shard, True)[0]
         val = validate(tr, "rand%d" % shard) if (rc == 0 and os.path.getsize(tr) > 0) else None
         return res, val
 
@@ -155,7 +170,7 @@ def run(v, tier, seed):
     nshard = 4 if quick else 8
     with cf.ThreadPoolExecutor(max_workers=16) as ex:
         f_mc = [ex.submit(model_check, 3, "full", "3full")]
-        if not quick: f_mc.append(ex.submit(model_check, 4, "full", "4full"))
+        if not quick: f_mc.append(ex.submit(model_check, 5, "full", "5full", False))
         f_reach = [ex.submit(reach, i, d, a, b) for i, (d, a, b) in enumerate(REACH)]
         f_menu = ex.submit(menu_dump)
         f_leak = ex.submit(lambda: vlib.run([srv, "ctrleak", W("rep_leak.ndjson")], timeout=120))
